@@ -79,6 +79,22 @@ def skip_gate_family():
     return out
 
 
+def stop_batch_family():
+    """--stop-early when the failing task's exit is reaped together with other exits (one SIGCHLD): the tasks that are
+    still running -- whichever was launched before or after the ones already gone -- must all be sent SIGTERM.
+    Exhaustive over which of four parallel leaves fails, how many further exits share the batch, and three pick patterns."""
+    out = []
+    for failing in (1, 2, 3, 4):
+        for extra in (1, 2):
+            for picks in ([0], [1], [2], [3]):
+                for jobs in (4, 3):
+                    tasks = [Task(2, [1, 2, 3, 4], "group", False)] + [Task(2, [], "command" if i % 2 else "experiment", True) for i in range(4)]
+                    rcs = [0, 0, 0, 0, 0]
+                    rcs[failing] = 7
+                    out.append(Case(tasks, jobs=jobs, stop=True, rcs=rcs, picks=list(picks) + [0, 0, 0], batches=[extra, 0, 0, 0]))
+    return out
+
+
 def gen_for(prop, chk, tier):
     rng = chk.rng
     n = {"quick": 500, "thorough": 6000}[tier]
@@ -93,6 +109,7 @@ def gen_for(prop, chk, tier):
         cases += launch_fail_family(rng, n // 10)
         sg = skip_gate_family()
         cases += sg if tier == "thorough" else sg[::4]
+        cases += stop_batch_family()
         cases += [rand_case(rng, fail=0.85, stop=0.4) for _ in range(n)]
     elif prop == "C04":
         cs = [rand_case(rng, fail=0.2) for _ in range(n)]
@@ -191,8 +208,13 @@ def real_slots(chk, rounds):
         order = [":g", ":c-p", ":c-s", ":e-p", ":e-s"]
         rng.shuffle(order)
         lines.append('combine(name="all", deps=[%s])' % ", ".join('"%s"' % d for d in order))
+        if r % 2 == 1:
+            # a plan with exactly ONE parallelizable task: it still gets a slot under --jobs N > 1
+            flags = {"only-p": True, "s1": False, "s2": False}
+            lines = ['run_experiment(name="only-p", run="%s", parallelizable=True)' % script, 'run_command(name="s1", run="%s")' % script,
+                     'run_command(name="s2", run="%s", deps=[":s1"])' % script, 'combine(name="all", deps=[":s2", ":only-p"])']
         open(os.path.join(root, "COND"), "w").write("\n".join(lines) + "\n")
-        jobs = [3, 1, 2, None][r % 4]
+        jobs = [3, 2, 2, None, 1, 3][r % 6]
         argv = ["run", "//:all"] + (["-j", str(jobs)] if jobs else [])
         res = implrun.run_cond(argv, root, timeout=120)
         chk.coverage["evaluations"] += 1
@@ -266,6 +288,17 @@ def run_prop(prop, tier, seed, replay=None, extra_oracles=(), extra_part=None, e
     run_cases(chk, cases, oracles)
     if prop in ("C03", "C01"):
         real_failures(chk, 4 if tier == "quick" else 24)
+        from reaper_util import unrelated_child
+
+        for hrc, trc in ((0, 3), (5, 0)):
+            msg = unrelated_child(chk, hrc, trc)
+            chk.coverage["evaluations"] += 1
+            chk.count("real", "unrelated child %d then task %d" % (hrc, trc))
+            if msg is not None:
+                chk.violation("impl-violation", "real processes: %s" % msg, {"input": {"scenario": "unrelated-child", "helper_rc": hrc, "task_rc": trc}, "impl_observation": msg},
+                              match_key={"real": "unrelated-child"}, size=2)
+            else:
+                chk.coverage["traces_validated_against_impl"] += 1
     if prop == "C04":
         real_slots(chk, 4 if tier == "quick" else 24)
     if extra_part is not None:
